@@ -603,6 +603,21 @@ func (x *vf12T) wargs(args []interface{}, toks []string, payload [][]byte) {
 		x.t.Fatalf("WriteArgs: %v", err)
 	}
 	w.Flush()
+	// second, independent reader of the same bytes: proto.Reader (the reply reader)
+	if rep, err := proto.NewReader(bytes.NewReader(buf.Bytes()), 4096).ReadReply(); err != nil {
+		s.Violate("wa-protoreader", fmt.Sprintf("proto.Reader cannot read WriteArgs output: %v", err), vf12Replay("wa 0 "+strings.Join(toks, " ")))
+	} else {
+		sl, ok := rep.([]interface{})
+		ok = ok && len(sl) == len(payload)
+		for i := 0; ok && i < len(sl); i++ {
+			str, isStr := sl[i].(string)
+			ok = isStr && str == string(payload[i])
+		}
+		if !ok {
+			s.Violate("wa-protoreader", "proto.Reader reads different arguments from WriteArgs output", vf12Replay("wa 0 "+strings.Join(toks, " ")))
+		}
+		s.Count("writeargs_read_by_proto_reader")
+	}
 	x.back("wa", buf.Bytes(), toks, payload)
 	s.Count("writeargs_cases")
 }
